@@ -2626,6 +2626,23 @@ static void cfg_print_quoted(FILE *fp, const char *str)
 	fprintf(fp, "\"");
 }
 
+/* Write an option name.  Declared names are plain words; a key of a free-form
+ * section can be any string and is quoted unless it is a plain word. */
+static void cfg_print_name(FILE *fp, const char *name)
+{
+	const char *p;
+
+	for (p = name; *p; p++) {
+		if (!isalnum((unsigned char)*p) && !strchr("_-.", *p))
+			break;
+	}
+
+	if (*p || p == name)
+		cfg_print_quoted(fp, name);
+	else
+		fprintf(fp, "%s", name);
+}
+
 DLLIMPORT int cfg_opt_nprint_var(cfg_opt_t *opt, unsigned int index, FILE *fp)
 {
 	const char *str;
@@ -2706,11 +2723,14 @@ static int cfg_opt_print_pff_indent(cfg_opt_t *opt, FILE *fp,
 			sec = cfg_opt_getnsec(opt, i);
 			cfg_indent(fp, indent);
 			if (is_set(CFGF_TITLE, opt->flags)) {
-				fprintf(fp, "%s ", opt->name);
+				cfg_print_name(fp, opt->name);
+				fprintf(fp, " ");
 				cfg_print_quoted(fp, cfg_title(sec));
 				fprintf(fp, " {\n");
-			} else
-				fprintf(fp, "%s {\n", opt->name);
+			} else {
+				cfg_print_name(fp, opt->name);
+				fprintf(fp, " {\n");
+			}
 			cfg_print_pff_indent(sec, fp, pff, indent + 1);
 			cfg_indent(fp, indent);
 			fprintf(fp, "}\n");
@@ -2718,7 +2738,8 @@ static int cfg_opt_print_pff_indent(cfg_opt_t *opt, FILE *fp,
 	} else if (opt->type != CFGT_FUNC && opt->type != CFGT_NONE) {
 		if (is_set(CFGF_LIST, opt->flags)) {
 			cfg_indent(fp, indent);
-			fprintf(fp, "%s = {", opt->name);
+			cfg_print_name(fp, opt->name);
+			fprintf(fp, " = {");
 
 			if (opt->nvalues) {
 				unsigned int i;
@@ -2743,7 +2764,8 @@ static int cfg_opt_print_pff_indent(cfg_opt_t *opt, FILE *fp,
 			if (cfg_opt_size(opt) == 0 ||
 			    (opt->type == CFGT_STR && !cfg_opt_getnstr(opt, 0)))
 				fprintf(fp, "# ");
-			fprintf(fp, "%s=", opt->name);
+			cfg_print_name(fp, opt->name);
+			fprintf(fp, "=");
 			if (opt->pf)
 				opt->pf(opt, 0, fp);
 			else
